@@ -513,11 +513,11 @@ class TableLookup(meta(metaclass=TableLookupMeta)):
 
   @table.setter
   def table(self, value):
+    len(value) # Should be a sized sequence (else it fails before any change)
     self._table = value
-    self._len = len(value)
 
   def __len__(self):
-    return self._len
+    return len(self._table)
 
   def __call__(self, freq, phase=0.):
     """
